@@ -42,6 +42,7 @@ def shards(tier, seed):
     for A in (2, 3, 4):
         out.append(dict(name="kmers/A%d" % A, kind="km", A=A, weight=A ** 6))
     out.append(dict(name="forms", kind="forms", weight=10))
+    out.append(dict(name="large", kind="large", weight=3000))
     return out
 
 
@@ -274,8 +275,68 @@ def run_forms(rec):
     rec.sample(dict(kind="forms", tables=tabs))
 
 
+def run_large(rec, tier, seed):
+    """Tables with hundreds of rows, many examples / annotation types, counts above 255 (int64 outputs), long sequences for kmers."""
+    from tangermeme.annotate import count_annotations, pairwise_annotations, pairwise_annotations_spacing
+    from tangermeme.kmers import kmers
+    rs = numpy.random.RandomState(23 + seed)
+    for (n, ne, na) in ((200, 8, 10), (700, 3, 2), (1000, 300, 4), (400, 1, 1)):
+        tab = [(int(rs.randint(0, ne)), int(rs.randint(0, na))) for _ in range(n)]
+        tab[0] = (ne - 1, na - 1)
+        X = torch.tensor(tab, dtype=torch.int64)
+        rec.case(1, 1)
+        ref = _ref_counts(tab, ne, na)
+        case = dict(fn="count_annotations", rows=n, examples=ne, annotations=na, generator="rs(23+seed)")
+        for inp in (X, X.to(torch.int32), (X[:, 0].numpy(), X[:, 1].numpy())):
+            st, y = call(count_annotations, inp, dtype=torch.int64)
+            if st != "ok" or not numpy.array_equal(y.numpy(), ref):
+                rec.violation("count_annotations:wrong:large", case, observed=y if st != "ok" else None)
+            for dim, r in ((0, ref.sum(0)), (1, ref.sum(1))):
+                st, y = call(count_annotations, inp, dtype=torch.int64, dim=dim)
+                if st != "ok" or not numpy.array_equal(y.numpy(), r):
+                    rec.violation("count_annotations:dim_wrong:large", dict(case, dim=dim))
+        if n <= 700:
+            for sym in (True, False):
+                st, y = call(pairwise_annotations, X, symmetric=sym)
+                r = _ref_pairs(tab, na, sym)
+                if st != "ok" or not numpy.array_equal(y.numpy().astype(numpy.int64), r):
+                    rec.violation("pairwise_annotations:wrong:large", dict(case, symmetric=sym))
+    for (n, ne, na, md) in ((150, 4, 6, 30), (300, 2, 3, 100), (120, 1, 2, 300)):
+        tab = []
+        for _ in range(n):
+            s_ = int(rs.randint(0, 400))
+            tab.append((int(rs.randint(0, ne)), int(rs.randint(0, na)), s_, s_ + int(rs.randint(1, 12))))
+        X = torch.tensor(tab, dtype=torch.int64)
+        for sym in (True, False):
+            ref, _ = _ref_spacing(tab, max(r[1] for r in tab) + 1, md, sym)
+            st, y = call(pairwise_annotations_spacing, X, max_distance=md, dtype=torch.int64, symmetric=sym)
+            rec.case(1, 1)
+            if st != "ok" or not numpy.array_equal(y.numpy(), ref):
+                rec.violation("pairwise_annotations_spacing:wrong:large", dict(fn="pairwise_annotations_spacing", rows=n, max_distance=md, symmetric=sym, generator="rs(23+seed)"),
+                              observed=y if st != "ok" else None)
+    # kmers on long sequences (counts above 255 and above 65535 for k=1), several rows
+    for (A_, k, L) in ((4, 1, 70000), (4, 3, 5000), (2, 4, 3000), (3, 2, 300)):
+        codes = rs.randint(0, A_, (3, L))
+        Xk = ohe(codes, A_)
+        words = all_codes(A_, k)
+        pi = kmers(ohe(words, A_), k).argmax(1).numpy()
+        wid = {tuple(w): int(pi[i]) for i, w in enumerate(words.tolist())}
+        ref = numpy.zeros((3, A_ ** k))
+        for i in range(L - k + 1):
+            ids = numpy.array([wid[tuple(w)] for w in codes[:, i:i + k].tolist()])
+            numpy.add.at(ref, (numpy.arange(3), ids), 1)
+        st, y = call(kmers, Xk, k)
+        rec.case(3, 3)
+        if st != "ok" or not numpy.array_equal(y.numpy(), ref):
+            rec.violation("kmers:wrong_counts:large", dict(fn="kmers", A=A_, k=k, L=L), observed=y if st != "ok" else None)
+    rec.sample(dict(kind="large", tables=["200x8x10", "700x3x2", "1000x300x4", "400x1x1"], kmers=["k1 L70000", "k3 L5000", "k4 L3000"]))
+
+
 def run_shard(sh, tier, seed):
     rec = Recorder(PID, sh["name"])
+    if sh["kind"] == "large":
+        run_large(rec, tier, seed)
+        return rec.result()
     if sh["kind"] == "cp":
         run_cp(rec, sh)
     elif sh["kind"] == "sp":
